@@ -204,4 +204,277 @@ end
 
 end
 
+/-! ### the engines -/
+
+namespace NowFree
+open Sqlgrep.NoPanicEngine Sqlgrep.NoSkipEngine
+
+section
+variable (O : Oracles) (v : Value)
+
+theorem selectOne_withNow (q : SelectStmt) (seen : List (List Value)) (env : Env) (keys : List String)
+    (h : q.allFuncs notNow = true) : selectOne (O.withNow v) q seen env keys = selectOne O q seen env keys := by
+  simp only [SelectStmt.allFuncs, Bool.and_eq_true] at h
+  obtain ⟨hproj, hfilter⟩ := h
+  have hcols := evalList_withNow O v env _ (allFuncsList_columns notNow keys)
+  have hprojs := evalList_withNow O v env _ (allFuncsList_map notNow (·.2) q.projections hproj)
+  have hfil : ∀ e, q.filter = some e → eval (O.withNow v) env e = eval O env e :=
+    fun e he => eval_withNow O v env e (by rw [he] at hfilter; exact hfilter)
+  unfold selectOne
+  cases hw : q.wildcard <;> cases hf : q.filter <;>
+    first
+      | simp only [hcols, hprojs, Bool.false_eq_true, if_false, if_true, hfil _ hf]
+      | simp only [hcols, hprojs, Bool.false_eq_true, if_false, if_true]
+
+theorem selectEnvs_withNow (q : SelectStmt) (envs : List (Env × List String)) (seen : List (List Value)) (acc : Option RowOut)
+    (h : q.allFuncs notNow = true) : selectEnvs (O.withNow v) q envs seen acc = selectEnvs O q envs seen acc := by
+  induction envs generalizing seen acc with
+  | nil => rfl
+  | cons p rest ih =>
+    obtain ⟨env, keys⟩ := p
+    simp only [selectEnvs, selectOne_withNow O v q _ _ _ h, ih]
+
+theorem cellStep_withNow (q : AggStmt) (env : Env) (k : AggKind) (c : Cell) (h : k.allFuncs notNow = true) :
+    cellStep (O.withNow v) q env k c = cellStep O q env k c := by
+  unfold cellStep
+  split <;> simp only [AggKind.allFuncs] at h <;> first | rfl | simp only [eval_withNow O v env _ h]
+
+theorem updateAggregate_withNow (q : AggStmt) (env : Env) (key : List Value) (idx : Nat) (k : AggKind) (st : AggState)
+    (h : k.allFuncs notNow = true) : updateAggregate (O.withNow v) q env key idx k st = updateAggregate O q env key idx k st := by
+  unfold updateAggregate
+  rw [cellStep_withNow O v _ _ _ _ h]
+
+theorem updateAggregates_withNow (q : AggStmt) (env : Env) (key : List Value) (l : List (Nat × AggKind)) (st : AggState)
+    (h : ∀ p ∈ l, p.2.allFuncs notNow = true) :
+    updateAggregates (O.withNow v) q env key l st = updateAggregates O q env key l st := by
+  induction l generalizing st with
+  | nil => rfl
+  | cons p rest ih =>
+    obtain ⟨i, k⟩ := p
+    have ih' := fun st => ih st (fun p hp => h p (List.mem_cons_of_mem _ hp))
+    simp only [updateAggregates, updateAggregate_withNow O v _ _ _ _ _ _ (h (i, k) List.mem_cons_self), ih']
+
+theorem havingUpdates_withNow (q : AggStmt) (env : Env) (key : List Value) (l : List HavingRef) (j : Nat) (st : AggState)
+    (h : l.all (·.allFuncs notNow) = true) :
+    havingUpdates (O.withNow v) q env key l j st = havingUpdates O q env key l j st := by
+  induction l generalizing st j with
+  | nil => rfl
+  | cons r rest ih =>
+    simp only [List.all_cons, Bool.and_eq_true] at h
+    have ih' := fun j st => ih j st h.2
+    cases r with
+    | key canon => simp only [havingUpdates, ih']
+    | agg id kind => simp only [havingUpdates, updateAggregate_withNow O v _ _ _ _ _ _ h.1, ih']
+
+theorem aggUpdateRow_withNow (q : AggStmt) (st : AggState) (env : Env) (h : q.allFuncs notNow = true) :
+    aggUpdateRow (O.withNow v) q st env = aggUpdateRow O q st env := by
+  simp only [AggStmt.allFuncs, Bool.and_eq_true] at h
+  obtain ⟨⟨⟨⟨⟨hitems, hfilter⟩, hgroup⟩, _⟩, hvisit⟩, _⟩ := h
+  have h1 : ∀ key st, updateAggregates (O.withNow v) q env key (enumFrom 0 (q.items.map (·.kind))) st =
+      updateAggregates O q env key (enumFrom 0 (q.items.map (·.kind))) st := by
+    intro key st
+    refine updateAggregates_withNow O v q env key _ st (fun p hp => ?_)
+    have hk : p.2 ∈ q.items.map (·.kind) := mem_enumFrom (i := p.1) (by cases p; exact hp)
+    obtain ⟨it, hit, e⟩ := List.mem_map.1 hk
+    have := List.all_eq_true.1 hitems it hit
+    simp only [AggItem.allFuncs, Bool.and_eq_true] at this
+    rw [← e]; exact this.1
+  have h2 : ∀ key st, havingUpdates (O.withNow v) q env key q.havingVisit 0 st = havingUpdates O q env key q.havingVisit 0 st :=
+    fun key st => havingUpdates_withNow O v q env key _ 0 st hvisit
+  have hfil : ∀ e, q.filter = some e → eval (O.withNow v) env e = eval O env e :=
+    fun e he => eval_withNow O v env e (by rw [he] at hfilter; exact hfilter)
+  have hgrp : ∀ parts, q.groupBy = some parts →
+      evalList (O.withNow v) env (parts.map (·.1)) = evalList O env (parts.map (·.1)) :=
+    fun parts hp => evalList_withNow O v env _ (allFuncsList_map notNow (·.1) parts (by rw [hp] at hgroup; exact hgroup))
+  unfold aggUpdateRow
+  simp only [h1, h2]
+  cases hf : q.filter <;> cases hg : q.groupBy <;>
+    first
+      | rfl
+      | simp only [hfil _ hf, hgrp _ hg]
+      | simp only [hfil _ hf]
+      | simp only [hgrp _ hg]
+
+theorem aggEnvs_withNow (q : AggStmt) (envs : List (Env × List String)) (st : AggState) (any : Bool)
+    (h : q.allFuncs notNow = true) : aggEnvs (O.withNow v) q envs st any = aggEnvs O q envs st any := by
+  induction envs generalizing st any with
+  | nil => rfl
+  | cons p rest ih =>
+    obtain ⟨env, ks⟩ := p
+    simp only [aggEnvs, aggUpdateRow_withNow O v q _ _ h, ih]
+
+/-! results -/
+
+theorem cellOf_withNow (q : AggStmt) (idx : Nat) (item : AggItem) (key : List Value) (subs : List (Nat × Value))
+    (h : item.allFuncs notNow = true) : cellOf (O.withNow v) q idx item key subs = cellOf O q idx item key subs := by
+  simp only [AggItem.allFuncs, Bool.and_eq_true] at h
+  unfold cellOf applyTransform
+  cases ht : item.transform with
+  | none => rfl
+  | some e =>
+    have := h.2
+    rw [ht] at this
+    simp only [eval_withNow O v _ e this]
+
+theorem rowOf_withNow (q : AggStmt) (key : List Value) (subs : List (Nat × Value)) (items : List (Nat × AggItem))
+    (h : ∀ p ∈ items, p.2.allFuncs notNow = true) : rowOf (O.withNow v) q key subs items = rowOf O q key subs items := by
+  induction items with
+  | nil => rfl
+  | cons p rest ih =>
+    obtain ⟨i, item⟩ := p
+    simp only [rowOf, cellOf_withNow O v q i item key subs (h (i, item) List.mem_cons_self),
+      ih (fun p hp => h p (List.mem_cons_of_mem _ hp))]
+
+theorem acceptGroup_withNow (q : AggStmt) (having : Expr) (key : List Value) (subs : List (Nat × Value))
+    (h : having.allFuncs notNow = true) : acceptGroup (O.withNow v) q having key subs = acceptGroup O q having key subs := by
+  unfold acceptGroup
+  simp only [eval_withNow O v _ having h]
+
+theorem resultRows_withNow (q : AggStmt) (groups : GroupMap Value) (seen : List (List Value))
+    (hitems : q.items.all (·.allFuncs notNow) = true) (hhaving : optAllFuncs notNow q.having = true) :
+    resultRows (O.withNow v) q groups seen = resultRows O q groups seen := by
+  induction groups generalizing seen with
+  | nil => rfl
+  | cons g rest ih =>
+    obtain ⟨key, subs⟩ := g
+    have hrow := rowOf_withNow O v q key subs _ (items_ok' notNow q hitems)
+    cases hh : q.having with
+    | none => simp only [resultRows, hrow, hh, ih]
+    | some e =>
+      rw [hh] at hhaving
+      simp only [resultRows, hrow, hh, ih, acceptGroup_withNow O v q e key subs hhaving]
+
+theorem aggResult_withNow (q : AggStmt) (st : AggState) (h : q.allFuncs notNow = true) :
+    aggResult (O.withNow v) q st = aggResult O q st := by
+  simp only [AggStmt.allFuncs, Bool.and_eq_true] at h
+  obtain ⟨⟨⟨⟨⟨hitems, _⟩, _⟩, hhaving⟩, _⟩, _⟩ := h
+  have h1 : ∀ key subs, rowOf (O.withNow v) q key subs (enumFrom 0 q.items) = rowOf O q key subs (enumFrom 0 q.items) :=
+    fun key subs => rowOf_withNow O v q key subs _ (items_ok' notNow q hitems)
+  have h2 : ∀ groups seen, resultRows (O.withNow v) q groups seen = resultRows O q groups seen :=
+    fun groups seen => resultRows_withNow O v q groups seen hitems hhaving
+  unfold aggResult
+  simp only [h1, h2]
+
+theorem finalResult_withNow (q : AggStmt) (es : EngineState) (h : q.allFuncs notNow = true) :
+    finalResult (O.withNow v) q es = finalResult O q es := by
+  unfold finalResult
+  rw [aggResult_withNow O v q _ h]
+
+/-- one line through the engine (batch mode and follow mode) -/
+theorem executeLine_withNow (qy : Query) (idx : JoinIndex) (w : Bool) (es : EngineState) (l : Line)
+    (h : qy.stmt.nowFree = true) : executeLine (O.withNow v) qy idx w es l = executeLine O qy idx w es l := by
+  unfold executeLine
+  cases hq : qy.stmt with
+  | select q =>
+    rw [hq] at h
+    have h1 := fun envs seen acc => selectEnvs_withNow O v q envs seen acc h
+    simp only [h1]
+  | aggregate q =>
+    rw [hq] at h
+    have h1 := fun envs st any => aggEnvs_withNow O v q envs st any h
+    have h2 := fun st => aggResult_withNow O v q st h
+    simp only [h1, h2]
+
+/-! ### the executors -/
+
+theorem runFile_withNow (qy : Query) (idx : JoinIndex) (w : Bool) (stopAt : Option Nat) (f : List FileLine)
+    (ls : LoopState) (h : qy.stmt.nowFree = true) :
+    runFile (O.withNow v) qy idx w stopAt f ls = runFile O qy idx w stopAt f ls := by
+  induction f generalizing ls with
+  | nil => rfl
+  | cons fl rest ih => simp only [runFile, executeLine_withNow O v qy idx w _ _ h, ih]
+
+theorem runFiles_withNow (qy : Query) (idx : JoinIndex) (w : Bool) (stopAt : Option Nat) (fs : List (List FileLine))
+    (ls : LoopState) (h : qy.stmt.nowFree = true) :
+    runFiles (O.withNow v) qy idx w stopAt fs ls = runFiles O qy idx w stopAt fs ls := by
+  induction fs generalizing ls with
+  | nil => rfl
+  | cons f rest ih => simp only [runFiles, runFile_withNow O v qy idx w stopAt f _ h, ih]
+
+theorem runWithIndex_withNow (qy : Query) (idxO : Outcome JoinIndex) (files : List (List FileLine)) (stopAt : Option Nat)
+    (h : qy.stmt.nowFree = true) : runWithIndex (O.withNow v) qy idxO files stopAt = runWithIndex O qy idxO files stopAt := by
+  have h1 := fun idx w ls => runFiles_withNow O v qy idx w stopAt files ls h
+  unfold runWithIndex
+  cases hq : qy.stmt with
+  | select q => simp only [h1]
+  | aggregate q =>
+    rw [hq] at h
+    have h2 := fun es => finalResult_withNow O v q es h
+    simp only [h1, h2]
+
+/-- `FileExecutor::execute` over extracted lines -/
+theorem runBatch_withNow (qy : Query) (joined : List FileLine) (files : List (List FileLine)) (stopAt : Option Nat)
+    (h : qy.stmt.nowFree = true) : runBatch (O.withNow v) qy joined files stopAt = runBatch O qy joined files stopAt := by
+  have h1 := fun idx w ls => runFiles_withNow O v qy idx w stopAt files ls h
+  unfold runBatch
+  cases hq : qy.stmt with
+  | select q => simp only [h1]
+  | aggregate q =>
+    rw [hq] at h
+    have h2 := fun es => finalResult_withNow O v q es h
+    simp only [h1, h2]
+
+/-- … with a joined file that may be missing and both interrupt points -/
+theorem runBatchI_withNow (qy : Query) (joined : Option (List FileLine)) (files : List (List FileLine))
+    (clearAt stopAt : Option Nat) (h : qy.stmt.nowFree = true) :
+    runBatchI (O.withNow v) qy joined files clearAt stopAt = runBatchI O qy joined files clearAt stopAt := by
+  unfold runBatchI
+  simp only [fun idxO sa => runWithIndex_withNow O v qy idxO files sa h]
+
+theorem runFollow_withNow (qy : Query) (stopAt : Option Nat) (lines : List Line) (ls : LoopState)
+    (h : qy.stmt.nowFree = true) : runFollow (O.withNow v) qy stopAt lines ls = runFollow O qy stopAt lines ls := by
+  induction lines generalizing ls with
+  | nil => rfl
+  | cons l rest ih => simp only [runFollow, executeLine_withNow O v qy [] true _ _ h, ih]
+
+/-- `FollowFileExecutor::execute` over delivered lines -/
+theorem runFollowAll_withNow (qy : Query) (stopAt : Option Nat) (lines : List Line) (h : qy.stmt.nowFree = true) :
+    runFollowAll (O.withNow v) qy stopAt lines = runFollowAll O qy stopAt lines := by
+  unfold runFollowAll
+  rw [runFollow_withNow O v qy stopAt lines _ h]
+
+/-! the traced loops (`Model/ExecT.lean`: what the end-to-end model executes) -/
+
+theorem runFileT_withNow (qy : Query) (idx : JoinIndex) (w : Bool) (f : List FileLine) (s : TraceState)
+    (h : qy.stmt.nowFree = true) : runFileT (O.withNow v) qy idx w f s = runFileT O qy idx w f s := by
+  induction f generalizing s with
+  | nil => rfl
+  | cons fl rest ih => simp only [runFileT, executeLine_withNow O v qy idx w _ _ h, ih]
+
+theorem runFilesT_withNow (qy : Query) (idx : JoinIndex) (w : Bool) (fs : List (List FileLine)) (s : TraceState)
+    (h : qy.stmt.nowFree = true) : runFilesT (O.withNow v) qy idx w fs s = runFilesT O qy idx w fs s := by
+  induction fs generalizing s with
+  | nil => rfl
+  | cons f rest ih => simp only [runFilesT, runFileT_withNow O v qy idx w f _ h, ih]
+
+theorem runWithIndexT_withNow (qy : Query) (idxO : Outcome JoinIndex) (files : List (List FileLine))
+    (h : qy.stmt.nowFree = true) : runWithIndexT (O.withNow v) qy idxO files = runWithIndexT O qy idxO files := by
+  have h1 := fun idx w s => runFilesT_withNow O v qy idx w files s h
+  unfold runWithIndexT
+  cases hq : qy.stmt with
+  | select q => simp only [h1]
+  | aggregate q =>
+    rw [hq] at h
+    have h2 := fun es => finalResult_withNow O v q es h
+    simp only [h1, h2]
+
+theorem runBatchT_withNow (qy : Query) (joined : Option (List FileLine)) (files : List (List FileLine))
+    (h : qy.stmt.nowFree = true) : runBatchT (O.withNow v) qy joined files = runBatchT O qy joined files := by
+  unfold runBatchT
+  exact runWithIndexT_withNow O v qy _ files h
+
+theorem runFollowT_withNow (qy : Query) (stopAt : Option Nat) (lines : List Line) (s : TraceState)
+    (h : qy.stmt.nowFree = true) : runFollowT (O.withNow v) qy stopAt lines s = runFollowT O qy stopAt lines s := by
+  induction lines generalizing s with
+  | nil => rfl
+  | cons l rest ih => simp only [runFollowT, executeLine_withNow O v qy [] true _ _ h, ih]
+
+theorem runFollowAllT_withNow (qy : Query) (stopAt : Option Nat) (lines : List Line) (h : qy.stmt.nowFree = true) :
+    runFollowAllT (O.withNow v) qy stopAt lines = runFollowAllT O qy stopAt lines := by
+  unfold runFollowAllT
+  simp only [runFollowT_withNow O v qy stopAt lines _ h]
+
+end
+end NowFree
+
 end Sqlgrep
